@@ -78,3 +78,36 @@ Proof.
   intro H. unfold rec_type, rec_tag, PERIOD. change 33554431 with (N.ones 25). rewrite N.land_ones.
   change (2 ^ 25) with 33554432. lia.
 Qed.
+
+(* ---------- relation to the physical meaning, across the uint64 wrap --------------------------- *)
+(* Whatever the true overflow count T (also beyond 2^64, and beyond 2^39 where T*2^25 leaves
+   uint64), the decoder started with T mod 2^64 emits exactly one event per true event, in order,
+   same type, timestamp = true time mod 2^64; its counter stays T mod 2^64. *)
+Lemma t2_refines_true recs : forall T,
+  t2_decode (T mod W64) recs = (fst (t2_true T recs) mod W64, map wrap_ev (snd (t2_true T recs))).
+Proof.
+  unfold W64. induction recs as [|r recs IH]; intro T; cbn [t2_decode t2_true]; [reflexivity|].
+  unfold t2_step. destruct (is_ovf r).
+  - rewrite N.add_mod_idemp_l by discriminate. rewrite IH.
+    destruct (t2_true (T + rec_tag r) recs) as [T' e]. reflexivity.
+  - rewrite IH. destruct (t2_true T recs) as [T' e]. cbn [fst snd map app]. f_equal. f_equal.
+    unfold wrap_ev. cbn [fst snd]. f_equal. unfold W64.
+    rewrite <- (N.add_mod_idemp_l (T mod _ * PERIOD)) by discriminate.
+    rewrite N.mul_mod_idemp_l by discriminate. rewrite N.add_mod_idemp_l by discriminate. reflexivity.
+Qed.
+
+Lemma t2_no_loss recs T :
+  length (snd (t2_decode (T mod W64) recs)) = length (snd (t2_true T recs)) /\
+  map fst (snd (t2_decode (T mod W64) recs)) = map fst (snd (t2_true T recs)).
+Proof.
+  rewrite t2_refines_true. cbn [snd]. rewrite map_length, map_map. split; reflexivity.
+Qed.
+
+(* while the true times fit in 64 bits the timestamps are the true times *)
+Lemma t2_exact recs T :
+  Forall (fun e => snd e < W64) (snd (t2_true T recs)) ->
+  snd (t2_decode (T mod W64) recs) = snd (t2_true T recs).
+Proof.
+  intro F. rewrite t2_refines_true. cbn [snd]. induction F as [|[ty t] l H _ IH]; [reflexivity|].
+  cbn [map]. rewrite IH. unfold wrap_ev. cbn [fst snd] in *. rewrite N.mod_small by exact H. reflexivity.
+Qed.
